@@ -42,6 +42,14 @@ func vSys(r *rand.Rand) *model.Sys {
 	return s
 }
 
+type vOldRA struct {
+	ra *ndp.RouterAdvertisement
+	b  []byte
+}
+
+// vHandedOut remembers, per interface, the last RA built and its wire form.
+var vHandedOut = map[*config.Interface]vOldRA{}
+
 var vClockOffsets = []time.Duration{-time.Hour, 0, time.Nanosecond, time.Second, 299 * time.Second, 300 * time.Second, 600 * time.Second,
 	601 * time.Second, time.Hour, 4 * time.Hour, 24*time.Hour - time.Nanosecond, 24 * time.Hour, 25 * time.Hour, 365 * 24 * time.Hour}
 
@@ -56,6 +64,19 @@ func vCheckRA(r *vlib.Run, id, text string, ifi *config.Interface, exp *model.Ex
 func vCheckRAInjected(r *vlib.Run, id, text string, ifi *config.Interface, exp *model.ExpIface, sys *model.Sys, fwd bool, now time.Time, repeats int, inject bool) int {
 	if inject {
 		vInject(ifi, sys, func() time.Time { return now })
+	}
+	// An RA built under the previous system state of this interface is a value
+	// that was handed out (transmitted, rendered): installing a new state must
+	// not reach back into it.
+	if old, ok := vHandedOut[ifi]; ok {
+		b, err := ndp.MarshalMessage(old.ra)
+		if err != nil || !bytes.Equal(b, old.b) {
+			r.Violation(id, "earlier-ra-altered", fmt.Sprintf("an RA built before the interface was prepared again reads differently afterwards (marshal error: %v)", err),
+				map[string]any{"toml": text, "interface": ifi.Name, "sys": sys, "before": fmt.Sprintf("%x", old.b), "after": fmt.Sprintf("%x", b)})
+			delete(vHandedOut, ifi)
+			return 0
+		}
+		r.Count("earlier_ras_rechecked", 1)
 	}
 	before := vDump(ifi)
 	want, wantErr, dc := model.ExpectedRA(exp, sys, fwd, vEpoch, now)
@@ -98,6 +119,7 @@ func vCheckRAInjected(r *vlib.Run, id, text string, ifi *config.Interface, exp *
 		if merr == nil {
 			if first == nil {
 				first = b
+				vHandedOut[ifi] = vOldRA{ra, b}
 			} else if !bytes.Equal(first, b) {
 				r.Violation(id, "rebuild-differs", "building the RA again produced different bytes", det(map[string]any{"build": k}))
 				return n
@@ -135,6 +157,7 @@ func TestVerifC01(t *testing.T) {
 		}
 		text := c.Doc.TOML()
 		r.Begin(c.ID)
+		clear(vHandedOut)
 		cfg, err, pan := vParse(text)
 		if pan != nil || err != nil {
 			// C02's business; here it only means there is nothing to observe.
